@@ -218,6 +218,8 @@ def c09(tier, seed):
     shards = pde_shards(pde_exe("plain"), sols, seed, cases, points, "source,exact,grad", dl=True, tag="O0:")
     if tier == "thorough":
         shards += pde_shards(pde_exe("opt"), sols, seed + 1, cases // 2, points, "source,exact,grad", dl=True, tag="O2:")
+        shards += pde_shards(pde_exe("opt3"), sols, seed + 2, cases // 4, points, "source,exact,grad", dl=True, tag="O3:")
+        shards += pde_shards(pde_exe("clang"), sols, seed + 3, cases // 4, points, "source,exact,grad", dl=True, tag="clang-O2:")
     agg.add_shards(run_shards(shards))
     cov = pde_cov(agg, sols, "Precision regime: |lib - ref| <= K u_S e with K_double = %g, K_longdouble = %g; double and long double compared at identical "
                              "double-representable inputs; every value checked finite." % (K_D, K_L))
@@ -225,7 +227,7 @@ def c09(tier, seed):
     for st in agg.stats.get("dl", []):
         dl[st["k"]] = max(dl.get(st["k"], 0), st["max"])
     cov["max_double_vs_longdouble_ratio(top 10)"] = dict(sorted(dl.items(), key=lambda kv: -kv[1])[:10])
-    cov["library_flavours"] = ["-O0 -fno-unsafe-math-optimizations"] + (["-O2 -fno-unsafe-math-optimizations"] if tier == "thorough" else [])
+    cov["library_flavours"] = ["g++ -O0 -fno-unsafe-math-optimizations"] + (["g++ -O2 -fno-unsafe-math-optimizations", "g++ -O3 -fno-unsafe-math-optimizations", "clang++ 14 -O2 -fno-unsafe-math-optimizations"] if tier == "thorough" else [])
     floors = [("every solution of C01-C06 contributed samples", agg.ndistinct("solutions") == len(sols)),
               ("double vs long double compared at least 5000 times", agg.count("double_vs_longdouble_comparisons") >= 5000)]
     return finish(agg, "exploration", cov, PDE_ASSUME + ["C08 solutions (sod_1d, cp_normal) are covered for precision by the C08 monitor's own quad references"], floors)
@@ -542,6 +544,21 @@ def c19(tier, seed):
         shards.append(Shard(cat_a, ["--mode", "c14", "--prec", p, "--seed", S(seed)], "exc-asan/c14/%s" % p, env=ASAN_ENV, timeout=3600))
     names_a = build.build_bin("exc-asan", "mon_names", COMMON + ["mon_names.cpp"])
     shards.append(Shard(names_a, ["--seed", S(seed), "--shard", "790", "--n", "3000" if thorough else "600", "--prec", "d"], "exc-asan/names", env=ASAN_ENV, timeout=3600))
+    # the same kinds of workload under clang 14's ASan+UBSan (library AND harness compiled by clang; -fsanitize=function,float-cast-overflow on top)
+    mem_cl = build.build_bin("clang-asan", "mon_mem", MEM_SRCS, whole_archive=True)
+    hist_cl = build.build_bin("clang-asan", "mon_hist", HIST_SRCS)
+    cabi_cl = build.build_bin("clang-asan", "mon_cabi", CABI_SRCS, whole_archive=True)
+    for p in ("d", "l"):
+        for mode in (("vectors", "strings", "extremes", "orders") if thorough else ("vectors", "strings")):
+            shards.append(Shard(mem_cl, ["--mode", mode, "--prec", p, "--seed", S(seed)], "clang-asan/%s/%s" % (mode, p), env=ASAN_ENV, timeout=3600))
+    shards.append(Shard(mem_cl, ["--mode", "carrays", "--seed", S(seed)], "clang-asan/carrays", env=ASAN_ENV))
+    if thorough:
+        for p in ("d", "l"):
+            for i in range(4):
+                shards.append(Shard(mem_cl, ["--mode", "pairs", "--prec", p, "--shard", S(i), "--parts", "4", "--seed", S(seed)], "clang-asan/pairs/%s/%d" % (p, i), env=ASAN_ENV, timeout=3600))
+    for i, focus in enumerate(["store", "purity", "registry", "fatal"] if thorough else ["store", "registry"]):
+        shards.append(Shard(hist_cl, ["--mode", "random", "--focus", focus, "--steps", S(steps), "--seed", S(seed), "--shard", S(820 + i)], "clang-asan/hist-%s" % focus, env=ASAN_ENV, timeout=7200))
+    shards.append(Shard(cabi_cl, ["--seed", S(seed), "--shard", "830", "--steps", S(steps)], "clang-asan/cabi", env=ASAN_ENV, timeout=7200))
     # valgrind memcheck on the plain build: the tool for uninitialised reads
     hist_p = hist_exe("plain")
     vg = [(mem_plain, ["--mode", "small", "--prec", "d", "--seed", S(seed)], "vg/mem-small/d"), (mem_plain, ["--mode", "small", "--prec", "l", "--seed", S(seed)], "vg/mem-small/l"),
@@ -561,9 +578,10 @@ def c19(tier, seed):
                    "masa_get_name into an uninitialised heap buffer, hostile strings (empty, 100 kB, embedded NUL/control bytes) as handle, solution, parameter and vector names, invalid gradient indices / moment orders -3..25 / extreme finite arguments, and the C10-C17 history, sweep, "
                    "catalogue, C-ABI and name workloads again. Conservation monitor: live solution objects == registered handles after every operation. Plain build: heap in use "
                    "after 1000 further masa_init calls. Distinct = shards (one history each) + ordered init pairs.",
-           "shards_by_tool": {"asan+ubsan+lsan": sum(1 for s in shards if s.env is ASAN_ENV), "valgrind": sum(1 for s in shards if s.wrapper), "plain": 2},
+           "shards_by_tool": {"g++ asan+ubsan+lsan": sum(1 for s in shards if s.env is ASAN_ENV and not s.label.startswith("clang")), "clang asan+ubsan+lsan": sum(1 for s in shards if s.label.startswith("clang")),
+                              "valgrind": sum(1 for s in shards if s.wrapper), "plain": 2},
            "ordered_init_pairs": agg.count("ordered_init_pairs"), "c_array_roundtrips": agg.count("c_array_roundtrips"), "extreme_calls": agg.count("extreme_calls"),
-           "heap_growth_bytes_after_1000_reinits": growth, "sanitizer_command": "g++ -O1 -g -fsanitize=address,undefined -fno-sanitize-recover=all; " + ASAN_ENV["ASAN_OPTIONS"],
+           "heap_growth_bytes_after_1000_reinits": growth, "sanitizer_command": "g++ -O1 -g -fsanitize=address,undefined -fno-sanitize-recover=all; clang++ 14 -O1 -fsanitize=address,undefined,function,float-cast-overflow -fno-sanitize=object-size -fno-sanitize-recover=all (library and harness); " + ASAN_ENV["ASAN_OPTIONS"],
            "valgrind_command": " ".join(VALGRIND)}
     floors = [("all 36x36 ordered init pairs in both precisions", agg.count("ordered_init_pairs") >= 2 * 36 * 36), ("C array round trips n=0..40", agg.count("c_array_roundtrips") >= 41),
               ("heap growth measured in both precisions", agg.count("reinit_growth_measurements") == 2), ("at least 3 valgrind shards", sum(1 for s in shards if s.wrapper) >= 3)]
@@ -588,6 +606,6 @@ def prebuild():
             ("exc", "mon_hist", HIST_SRCS, {}), ("plain", "mon_hist", HIST_SRCS, {}), ("exc-asan", "mon_hist", HIST_SRCS, {}), ("asan", "mon_hist", HIST_SRCS, {}),
             ("plain", "mon_cat", CAT_SRCS, {}), ("exc", "mon_cat", CAT_SRCS, {}), ("exc-asan", "mon_cat", CAT_SRCS, {}),
             ("plain", "mon_cabi", CABI_SRCS, {"whole_archive": True}), ("exc", "mon_cabi", CABI_SRCS, {"whole_archive": True}), ("exc-asan", "mon_cabi", CABI_SRCS, {"whole_archive": True}),
-            ("asan", "c18_truth", ["common.cpp", "c18_truth.cpp"], {}), ("asan", "mon_mem", MEM_SRCS, {"whole_archive": True}), ("exc-asan", "mon_mem", MEM_SRCS, {"whole_archive": True}), ("plain", "mon_mem", MEM_SRCS, {"whole_archive": True})]
+            ("asan", "c18_truth", ["common.cpp", "c18_truth.cpp"], {}), ("clang-asan", "mon_mem", MEM_SRCS, {"whole_archive": True}), ("clang-asan", "mon_hist", HIST_SRCS, {}), ("clang-asan", "mon_cabi", CABI_SRCS, {"whole_archive": True}), ("asan", "mon_mem", MEM_SRCS, {"whole_archive": True}), ("exc-asan", "mon_mem", MEM_SRCS, {"whole_archive": True}), ("plain", "mon_mem", MEM_SRCS, {"whole_archive": True})]
     with ThreadPoolExecutor(6) as ex:
         list(ex.map(lambda j: build.build_bin(j[0], j[1], j[2], **j[3]), jobs))
